@@ -201,6 +201,14 @@ WellFormed(f) == \A i \in 1..(Len(f) - 1) : Joinable(f[i], f[i + 1])
 \*          "timeout"  the upstream does not answer in time: the proxy answers 504
 \*          "noroute"  no route matches: the proxy answers 404 itself
 \*          "redirect" the route is a redirect: the proxy answers x.status (3xx) itself
+\*          "aborted"  the client hangs up while the upstream has not answered yet: the proxy ends the
+\*                     exchange with status 499 (client closed request); nobody reads it, it is logged
+\* x.fwdhdr  what the client says about the original scheme: "none" | "xfp" (X-Forwarded-Proto: https) |
+\*           "fwd" (Forwarded: proto=https).  fabio derives the request scheme from exactly one of them,
+\*           otherwise from the connection (plain: http) - and logs the scheme it derived and forwards.
+\* x.ridcfg  proxy.header.requestid as configured ("" = off, any letter case): fabio puts ITS id into
+\*           that header (replacing the client's) for the upstream AND, being a request header, for
+\*           $header.<name>; header names are case-insensitive.
 \* The handler side of the exchange is a script of calls WriteHeader(n) / Write(n bytes); the wire
 \* semantics of an HTTP/1.1 server turn the script into what the client receives:
 \*   - an informational status (1xx other than 101) is sent at once and fixes nothing,
@@ -218,6 +226,7 @@ Script(x) == CASE x.kind = "proxied"  -> [i \in DOMAIN x.info |-> WH(x.info[i])]
                [] x.kind = "timeout"  -> <<WH(504)>>
                [] x.kind = "noroute"  -> <<WH(404)>>
                [] x.kind = "redirect" -> <<WH(x.status)>>
+               [] x.kind = "aborted"  -> <<WH(499)>>
 WireStep(st, c, m) ==
     IF c.op = "wh"
     THEN IF st.status = 0 /\ ~Informational(c.n) THEN [st EXCEPT !.status = c.n]
@@ -231,17 +240,22 @@ ClientView(x) == Wire([status |-> 0, bytes |-> 0, infos |-> <<>>], Script(x), x.
 
 \* the event of a completed exchange (time and duration are bound by the harness, not here)
 NoAddr == [form |-> "empty", h |-> "", p |-> ""]
-Contacted(x) == x.kind \in {"proxied", "refused", "timeout"}
+Contacted(x) == x.kind \in {"proxied", "refused", "timeout", "aborted"}
+ReqScheme(x) == IF x.fwdhdr \in {"xfp", "fwd"} THEN "https" ELSE "http"
+\* the request headers as the proxy forwards and logs them, as far as the exchange universe looks at them
+RidHeader(x) == IF x.ridcfg # "" THEN << [name |-> x.ridcanon, vals |-> <<x.fabioid>>, nilv |-> FALSE] >>
+                ELSE IF x.ridclient # "" THEN << [name |-> x.ridcanon, vals |-> <<x.ridclient>>, nilv |-> FALSE] >>
+                ELSE << >>
 EventOf(x) ==
     LET cv == ClientView(x) IN
     [req |-> TRUE, t |-> [Y |-> 1970, M |-> 1, D |-> 1, h |-> 0, m |-> 0, s |-> 0, ns |-> 0], dur |-> [s |-> 0, ns |-> 0],
      size |-> BigOf(cv.bytes), status |-> cv.status,
      raddr |-> x.raddr, uaddr |-> IF Contacted(x) THEN x.target ELSE NoAddr,
      method |-> x.method, uri |-> x.path \o (IF x.query = "" THEN "" ELSE "?" \o x.query), proto |-> "HTTP/1.1", host |-> x.host,
-     rurl |-> [present |-> TRUE, scheme |-> "http", host |-> x.host, path |-> x.path, query |-> x.query],
+     rurl |-> [present |-> TRUE, scheme |-> ReqScheme(x), host |-> x.host, path |-> x.path, query |-> x.query],
      uurl |-> IF Contacted(x) THEN [present |-> TRUE, scheme |-> "http", host |-> AddrStr(x.target), path |-> x.path, query |-> x.query]
               ELSE [present |-> FALSE, scheme |-> "", host |-> "", path |-> "", query |-> ""],
-     hmap |-> TRUE, hdr |-> x.hdr, svc |-> IF Contacted(x) THEN x.svc ELSE ""]
+     hmap |-> TRUE, hdr |-> RidHeader(x) \o x.hdr, svc |-> IF Contacted(x) THEN x.svc ELSE ""]
 \* the statement says nothing about the upstream fields of an exchange that contacts no upstream
 UpstreamField(t) == t.k = "field" /\ t.v \in {"$upstream_addr", "$upstream_host", "$upstream_port", "$upstream_request_scheme",
                                                "$upstream_request_uri", "$upstream_request_url", "$upstream_service"}
